@@ -614,3 +614,81 @@ Theorem C02_parse_render_iso_z_local : forall j tf d o df cy loc n0 n1 yf ig,
   = OutOk (expected_dt (TDT DIso j tf OZ) d df) (fst (local_zone_res ig n0 n1)) (snd (local_zone_res ig n0 n1)) false [].
 Proof. exact parse_render_iso_z_local_lemma. Qed.
 Print Assumptions C02_parse_render_iso_z_local.
+
+(* ---- helper rdalg (round 4): template theorems proved in coq/parse/RenderX*.v, LexSegX.v ---- *)
+From V Require Import parse.ParseSpec2 parse.LexSeg parse.LexSeg2 parse.RenderTac parse.WordFacts parse.Render12Defs parse.RenderX12Name_DDMonthY parse.RenderXCompactFrac parse.RenderXCompactFracUtc parse.RenderXCompactFracOff_OHH_MM parse.RenderXCompactFracOff_OHH.
+
+Theorem C02_parse_render_12h_DDMonthY_T12HM : forall spaced d o df cy loc n0 n1 yf ig,
+  valid_dt d = true -> valid_dt df = true -> 100 <= d_y d ->
+  parse (opts_df0 yf ig df cy loc n0 n1) (render (TDT DDMonthY JSpace (T12HM spaced) ONone) d o)
+  = OutOk (expected_dt (TDT DDMonthY JSpace (T12HM spaced) ONone) d df) ZNaive 0 false [].
+Proof. exact parse_render_12h_DDMonthY_T12HM. Qed.
+Print Assumptions C02_parse_render_12h_DDMonthY_T12HM.
+
+Theorem C02_parse_render_compact_frac : forall space k comma d o df cy loc n0 n1 yf ig,
+  (1 <= k <= 9)%nat ->
+  valid_dt d = true -> valid_dt df = true ->
+  parse (opts_df0 yf ig df cy loc n0 n1) (render_cf space k comma ONone d o)
+  = OutOk (expected_cf_dt k d) ZNaive 0 false [].
+Proof. exact parse_render_compact_frac. Qed.
+Print Assumptions C02_parse_render_compact_frac.
+
+Theorem C02_parse_render_compact_frac_utc_OZ : forall space k comma d o df cy loc n0 n1 yf ig,
+  (1 <= k <= 9)%nat ->
+  valid_dt d = true -> valid_dt df = true ->
+  smem [85; 84; 67] loc = false -> smem [71; 77; 84] loc = false ->
+  parse (opts_df0 yf ig df cy loc n0 n1) (render_cf space k comma OZ d o)
+  = OutOk (expected_cf_dt k d) (if ig then ZNaive else ZUTC) 0 false [].
+Proof. exact parse_render_compact_frac_utc_OZ. Qed.
+Print Assumptions C02_parse_render_compact_frac_utc_OZ.
+
+Theorem C02_parse_render_compact_frac_utc_OUTC : forall space k comma d o df cy loc n0 n1 yf ig,
+  (1 <= k <= 9)%nat ->
+  valid_dt d = true -> valid_dt df = true ->
+  smem [85; 84; 67] loc = false -> smem [71; 77; 84] loc = false ->
+  parse (opts_df0 yf ig df cy loc n0 n1) (render_cf space k comma OUTC d o)
+  = OutOk (expected_cf_dt k d) (if ig then ZNaive else ZUTC) 0 false [].
+Proof. exact parse_render_compact_frac_utc_OUTC. Qed.
+Print Assumptions C02_parse_render_compact_frac_utc_OUTC.
+
+Theorem C02_parse_render_compact_frac_utc_OGMT : forall space k comma d o df cy loc n0 n1 yf ig,
+  (1 <= k <= 9)%nat ->
+  valid_dt d = true -> valid_dt df = true ->
+  smem [85; 84; 67] loc = false -> smem [71; 77; 84] loc = false ->
+  parse (opts_df0 yf ig df cy loc n0 n1) (render_cf space k comma OGMT d o)
+  = OutOk (expected_cf_dt k d) (if ig then ZNaive else ZUTC) 0 false [].
+Proof. exact parse_render_compact_frac_utc_OGMT. Qed.
+Print Assumptions C02_parse_render_compact_frac_utc_OGMT.
+
+Theorem C02_parse_render_compact_frac_offset_OHH_MM : forall space k comma d o df cy loc n0 n1 yf ig,
+  (1 <= k <= 9)%nat ->
+  valid_dt d = true -> valid_dt df = true -> wf_off o = true -> smem utc_name loc = false ->
+  parse (opts_df0 yf ig df cy loc n0 n1) (render_cf space k comma OHH_MM d o)
+  = OutOk (expected_cf_dt k d)
+          (if ig then ZNaive else
+           match expected_cf_off OHH_MM o with Some v => zone_of_off v | None => ZNaive end) 0 false [].
+Proof. exact parse_render_compact_frac_offset_OHH_MM. Qed.
+Print Assumptions C02_parse_render_compact_frac_offset_OHH_MM.
+
+Theorem C02_parse_render_compact_frac_offset_OHH : forall space k comma d o df cy loc n0 n1 yf ig,
+  (1 <= k <= 9)%nat ->
+  valid_dt d = true -> valid_dt df = true -> wf_off o = true -> smem utc_name loc = false ->
+  parse (opts_df0 yf ig df cy loc n0 n1) (render_cf space k comma OHH d o)
+  = OutOk (expected_cf_dt k d)
+          (if ig then ZNaive else
+           match expected_cf_off OHH o with Some v => zone_of_off v | None => ZNaive end) 0 false [].
+Proof. exact parse_render_compact_frac_offset_OHH. Qed.
+Print Assumptions C02_parse_render_compact_frac_offset_OHH.
+
+(* ---- helper rdalg (round 4): template theorems proved in coq/parse/RenderX*.v, LexSegX.v ---- *)
+From V Require Import parse.LexSeg parse.LexSeg2 parse.RenderTac parse.WordFacts parse.Render12Defs parse.RenderXCompactFracOff4.
+
+Theorem C02_parse_render_compact_frac_offset4 : forall space k comma d o df cy loc n0 n1 yf ig,
+  (1 <= k <= 9)%nat ->
+  valid_dt d = true -> valid_dt df = true -> wf_off o = true -> smem utc_name loc = false ->
+  parse (opts_df0 yf ig df cy loc n0 n1) (render_cf space k comma OHHMM d o)
+  = OutOk (expected_cf_dt k d)
+          (if ig then ZNaive else
+           match expected_cf_off OHHMM o with Some v => zone_of_off v | None => ZNaive end) 0 false [].
+Proof. exact parse_render_compact_frac_offset4. Qed.
+Print Assumptions C02_parse_render_compact_frac_offset4.
